@@ -40,8 +40,13 @@ pub fn bicliques() -> Vec<(usize, usize)> {
 /// between calls, e.g. a cache that only grows).
 pub const SEQS: [(usize, usize); 7] = [(70, 40), (257, 129), (129, 64), (64, 33), (33, 32), (1025, 100), (40, 70)];
 
+/// Orders that only the edge list can represent (its `empty` is O(1)).
+pub const EXTREME: [usize; 6] = [1 << 32, (1 << 32) + 1, 1 << 40, 1 << 63, usize::MAX - 1, usize::MAX];
+/// Orders requested at the same time by several caller threads.
+pub const CONCURRENT: [[usize; 3]; 4] = [[40, 64, 33], [32, 32, 32], [100, 3, 70], [257, 129, 65]];
+
 pub fn n_cases() -> usize {
-    GENS.len() * orders().len() + bicliques().len() + 3 + (GENS.len() + 3 + 3) + (GENS.len() + 1) * SEQS.len()
+    GENS.len() * orders().len() + bicliques().len() + 3 + (GENS.len() + 3 + 3) + (GENS.len() + 1) * SEQS.len() + EXTREME.len() + CONCURRENT.len()
 }
 
 fn closed_form(g: usize, n: usize) -> Model {
@@ -173,6 +178,62 @@ pub fn case(idx: u64, _seed: u64, p: &Params, o: &mut CaseOut) {
         return;
     }
     k -= 3;
+    if k >= GENS.len() + 3 + 3 + (GENS.len() + 1) * SEQS.len() {
+        let k = k - (GENS.len() + 3 + 3 + (GENS.len() + 1) * SEQS.len());
+        if k < EXTREME.len() {
+            let n = EXTREME[k];
+            let what = format!("EdgeList::empty({n})");
+            if let Some(d) = o.must_return("EdgeList::empty:extreme-order-panicked", || what.clone(), || EdgeList::empty(n)) {
+                o.check(d.order() == n && d.size() == 0 && d.arcs().next().is_none() && !d.has_arc(0, n - 1), "EdgeList::empty:extreme-order", || format!("order {} size {}", d.order(), d.size()));
+            }
+            fp.s("extreme").us(n);
+            o.fp = fp.0;
+            o.nontrivial = true;
+            o.bump("extreme_order");
+            if o.want_desc {
+                o.desc = what;
+            }
+            return;
+        }
+        let orders = CONCURRENT[k - EXTREME.len()];
+        if orders.iter().any(|&x| x > max) {
+            o.skipped = true;
+            return;
+        }
+        // several caller threads build complete digraphs at the same time
+        let bad: Vec<String> = std::thread::scope(|s| {
+            let hs: Vec<_> = orders
+                .iter()
+                .map(|&n| {
+                    s.spawn(move || {
+                        let mut bad = Vec::new();
+                        for rep in 0..6 {
+                            let c = AdjacencyList::complete(n);
+                            let ok = c.order() == n && c.arcs().eq((0..n).flat_map(|u| (0..n).filter(move |&v| v != u).map(move |v| (u, v))));
+                            if !ok {
+                                bad.push(format!("complete({n}) repetition {rep}: order {} size {}", c.order(), c.size()));
+                            }
+                            let m = AdjacencyMap::complete(n);
+                            if m.order() != n || m.size() != n * (n - 1) {
+                                bad.push(format!("AdjacencyMap::complete({n}) repetition {rep}: order {} size {}", m.order(), m.size()));
+                            }
+                        }
+                        bad
+                    })
+                })
+                .collect();
+            hs.into_iter().flat_map(|h| h.join().unwrap_or_else(|_| vec!["a caller thread panicked".to_string()])).collect()
+        });
+        o.check(bad.is_empty(), "complete:wrong-with-concurrent-callers", || crate::ctx::clip(&bad.join(" | ")));
+        fp.s("concurrent").us(orders[0]).us(orders[1]);
+        o.fp = fp.0;
+        o.nontrivial = true;
+        o.bump("concurrent_callers");
+        if o.want_desc {
+            o.desc = format!("three threads call complete({}), complete({}), complete({}) at the same time, 6 times each", orders[0], orders[1], orders[2]);
+        }
+        return;
+    }
     if k >= GENS.len() + 3 + 3 {
         let k = k - (GENS.len() + 3 + 3);
         let (g, (a, b)) = (k / SEQS.len(), SEQS[k % SEQS.len()]);
